@@ -184,6 +184,10 @@ def enumerate_faults(world, opts, facts):
     out.append({"class": "storage", "kind": "not_a_zip"})
     out.append({"class": "storage", "kind": "zip_without_content"})
     out.append({"class": "storage", "kind": "content_not_xml"})
+    # damage inside content.xml that a "recovering" parser would paper over: the tail of the document lost (zero-filled blocks of a bad
+    # disk / interrupted copy), with and without a stray control character before it
+    for kind in ("content_zero_filled_tail", "content_control_char_and_cut", "content_cut_after_table_end"):
+        out.append({"class": "storage", "kind": kind})
     # command line
     fc = facts[country]
     if world.get("methods"):
@@ -211,6 +215,8 @@ def enumerate_faults(world, opts, facts):
     out.append({"class": "cmdline", "kind": "from_after_to"})
     out.append({"class": "cmdline", "kind": "malformed_date", "opt": "-f", "value": "2020-13-45"})
     out.append({"class": "cmdline", "kind": "malformed_date", "opt": "-t", "value": "yesterday"})
+    for k, v in enumerate(["", "2021-02-30", "21-02-03", "2021/02/03", "2021-02-03T10:00:00", " "]):
+        out.append({"class": "cmdline", "kind": "malformed_date", "opt": "-f" if k % 2 == 0 else "-t", "value": v})
     out.append({"class": "cmdline", "kind": "unknown_asset_option", "value": "NOPE"})
     out.append({"class": "cmdline", "kind": "deprecated_plugin_option"})
     out.append({"class": "cmdline", "kind": "missing_config"})
@@ -482,6 +488,26 @@ def apply_fault(world, opts, fault):
                     data = zin.read(item.filename)
                     if item.filename == "content.xml":
                         data = data[: len(data) // 2]
+                    zout.writestr(item, data)
+            ods = buf.getvalue()
+        elif kind in ("content_zero_filled_tail", "content_control_char_and_cut", "content_cut_after_table_end"):
+            import io  # pylint: disable=import-outside-toplevel
+            import zipfile  # pylint: disable=import-outside-toplevel
+
+            buf = io.BytesIO()
+            with zipfile.ZipFile(io.BytesIO(good)) as zin, zipfile.ZipFile(buf, "w") as zout:
+                for item in zin.infolist():
+                    data = zin.read(item.filename)
+                    if item.filename == "content.xml":
+                        marks = [m for m in range(len(data)) if data.startswith(b"TABLE END", m)]
+                        cut = data.index(b"</table:table-row>", marks[0]) + len(b"</table:table-row>") if marks else len(data) * 2 // 3
+                        if kind == "content_zero_filled_tail":
+                            data = data[:cut] + b"\x00" * (len(data) - cut)
+                        elif kind == "content_control_char_and_cut":
+                            at = data.index(b"<text:p>") + len(b"<text:p>")
+                            data = data[:at] + b"\x0b" + data[at:cut]
+                        else:
+                            data = data[:cut]
                     zout.writestr(item, data)
             ods = buf.getvalue()
     elif cls == "cmdline":
